@@ -44,8 +44,92 @@ func genRectCase(r *Rng, tier string) rectCase {
 		c.Rect[3] += g.Unit / 3
 	}
 	c.Paths = genPaths(r, g, 3, 8)
+	if r.Chance(0.35) {
+		// paths that orbit the rectangle through the 8 outside zones (laps, diagonal approaches,
+		// entering and leaving through the same or different sides): the corner / start-location logic
+		c.Paths = clip.Paths64{genOrbit(r, c.Rect)}
+		if r.Chance(0.3) {
+			c.Paths = append(c.Paths, genOrbit(r, c.Rect))
+		}
+	}
 	c.Via = []string{"paths", "path"}[r.Pick(4, 1)]
 	return c
+}
+
+// the rectangle clipper works path by path with an even-odd notion of "inside": where a single
+// path winds around a point twice or more (|winding| ≥ 2) it cannot reproduce the winding number
+// (KNOWN_FINDINGS.txt: site:rect-winding-beyond-one); everything else is a fresh violation
+func c06Sig(c rectCase, resp string) string {
+	if x, y, ok := witnessOf(resp); ok {
+		for _, p := range c.Paths {
+			if w := floatWinding(p, x, y); w >= 2 || w <= -2 {
+				return "site:rect-winding-beyond-one"
+			}
+		}
+	}
+	return sigOf(c)
+}
+
+// winding number of one closed path about (x,y) (float crossing count; attribution only)
+func floatWinding(p clip.Path64, x, y float64) int {
+	w := 0
+	for i := range p {
+		a, b := p[i], p[(i+1)%len(p)]
+		ay, by := float64(a.Y), float64(b.Y)
+		cr := (float64(b.X)-float64(a.X))*(y-ay) - (x-float64(a.X))*(by-ay)
+		if ay <= y && y < by && cr > 0 {
+			w++
+		} else if by <= y && y < ay && cr < 0 {
+			w--
+		}
+	}
+	return w
+}
+
+// ring of the 8 zones around a rectangle, clockwise from the top-left corner zone
+var orbitRing = [8][2]int{{0, 0}, {1, 0}, {2, 0}, {2, 1}, {2, 2}, {1, 2}, {0, 2}, {0, 1}}
+
+func zonePt(r *Rng, rc [4]int64, zx, zy int) P {
+	w, h := rc[2]-rc[0], rc[3]-rc[1]
+	pick := func(z int, lo, hi, ext int64) int64 {
+		switch z {
+		case 0:
+			return lo - 3 - int64(r.Intn(int(ext)+1))
+		case 2:
+			return hi + 3 + int64(r.Intn(int(ext)+1))
+		}
+		if hi-lo <= 6 {
+			return (lo + hi) / 2
+		}
+		return lo + 3 + int64(r.Intn(int(hi-lo-5)))
+	}
+	return P{X: pick(zx, rc[0], rc[2], w), Y: pick(zy, rc[1], rc[3], h)}
+}
+
+func genOrbit(r *Rng, rc [4]int64) clip.Path64 {
+	n := r.Range(4, 14)
+	pos := r.Intn(8)
+	dir := 1
+	if r.Bool() {
+		dir = 7
+	}
+	var p clip.Path64
+	for len(p) < n {
+		switch r.Pick(8, 2, 1, 1) {
+		case 0: // next zone along the ring
+			pos = (pos + dir) % 8
+		case 1: // skip a zone (diagonal step across a corner or along a side)
+			pos = (pos + 2*dir) % 8
+		case 2: // dip into the rectangle
+			p = append(p, zonePt(r, rc, 1, 1))
+			continue
+		case 3: // turn round
+			dir = 8 - dir
+			pos = (pos + dir) % 8
+		}
+		p = append(p, zonePt(r, rc, orbitRing[pos][0], orbitRing[pos][1]))
+	}
+	return p
 }
 
 func c06Check(o *Oracle, c rectCase) (ok bool, kind, detail, resp string) {
@@ -93,7 +177,7 @@ func c06Check(o *Oracle, c rectCase) (ok bool, kind, detail, resp string) {
 func init() {
 	stages["c06-search"] = func(ctx *Ctx, cnt func(q, t int) int, replay string) Result {
 		col := NewCollector("C06", "search", "random rectangles (on and off the vertex grid, so touching/containing vertices) × closed path sets from C01's generators; vertices within rect±1, inside/outside fast paths, winding equality inside the rectangle and 0 outside judged by the Lean oracle (band = input edges ∪ rectangle sides); non-trivial = the path set crosses the rectangle boundary (result differs from input and is non-empty)")
-		parallelFor(ctx, cnt(3000, 200000), true, col, func(o *Oracle, i int) {
+		parallelFor(ctx, cnt(15000, 400000), true, col, func(o *Oracle, i int) {
 			r := NewRng(ctx.Seed, "c06", i)
 			c := genRectCase(r, ctx.Tier)
 			ok, kind, detail, resp := c06Check(o, c)
@@ -108,12 +192,12 @@ func init() {
 					if len(cc.Paths) == 0 {
 						return false
 					}
-					k, kd, _, _ := c06Check(o, cc)
-					return !k && kd == kind
+					k, kd, _, rs := c06Check(o, cc)
+					return !k && kd == kind && c06Sig(cc, rs)[:5] == c06Sig(c, resp)[:5]
 				})
 				c.Paths = sh[0]
-				_, _, detail, _ = c06Check(o, c)
-				col.Violate(Violation{Property: "C06", Kind: kind, Signature: sigOf(c), Detail: detail, Case: c, Stream: "c06", Index: i, Seed: ctx.Seed})
+				_, _, detail, resp = c06Check(o, c)
+				col.Violate(Violation{Property: "C06", Kind: kind, Signature: c06Sig(c, resp), Detail: detail, Case: c, Stream: "c06", Index: i, Seed: ctx.Seed})
 			}
 		})
 		return col.Finish()
@@ -123,8 +207,8 @@ func init() {
 		if err := json.Unmarshal(raw, &c); err != nil {
 			fatal("replay case: %v", err)
 		}
-		if ok, kind, detail, _ := c06Check(o, c); !ok {
-			return &Violation{Property: "C06", Kind: kind, Signature: sigOf(c), Detail: detail, Case: c}
+		if ok, kind, detail, resp := c06Check(o, c); !ok {
+			return &Violation{Property: "C06", Kind: kind, Signature: c06Sig(c, resp), Detail: detail, Case: c}
 		}
 		return nil
 	}
